@@ -5,6 +5,7 @@ pub mod alloc;
 pub mod engine;
 pub mod fault;
 pub mod fs;
+pub mod metrics;
 pub mod net;
 pub mod rng;
 pub mod signal;
@@ -18,6 +19,7 @@ pub fn reset_all(entropy_seed: u64) {
     net::udp::reset();
     net::tcp::reset();
     signal::reset();
+    metrics::reset();
     fault::clear();
     rng::reseed(entropy_seed);
     let _ = alloc::take_excess();
